@@ -5,6 +5,7 @@
 import Simpleline.Lemmas.SchedStep
 
 namespace Simpleline
+set_option linter.unusedSimpArgs false
 
 /-- what the scheduler's own instructions put in front of the code (the control flow of
 `ScreenScheduler` and `InputManager`/`process_input`) -/
